@@ -14,6 +14,8 @@ LM = 'rnacos::raft::filestore::raftlog::RaftLogManager::'
 def run(ck, fb):
     _run0(ck, fb)
     r08f(ck, fb)
+    r08g(ck, fb)
+    r08h(ck, fb)
 
 
 def _run0(ck, fb):
@@ -161,3 +163,79 @@ def r08f(ck, fb):
     ck.require(not missing, 'R08f', 'apply_snapshot:resets-state', fb.get(start).where(),
                'the install path only inserts: no reset of %s is reachable from apply_snapshot, so keys the follower holds and the snapshot lacks '
                '(deleted on the leader before compaction) survive the install and are served' % missing, 'reset reachable for every loaded component')
+
+
+def r08g(ck, fb):
+    ck.rule('R08g', 'a follower whose whole log is older than the snapshot starts over: async-raft passes delete_through = None in that case, and '
+                    'finalize_snapshot_installation must then ask the log manager to drop EVERYTHING (a split-off bound no log index can reach), not '
+                    'nothing; RaftLogManager::split_off forgets the current log actor when it removed its file. Otherwise the old log stays current, '
+                    'the last log index stays behind the snapshot and the leader\'s next append is refused for ever')
+    start = FS + 'finalize_snapshot_installation'
+    b = fb.main(start) if fb.has(start) else None
+    if b is None:
+        ck.body(start, 'R08g')
+        return
+    ck.analysed(b)
+    from rn.facts import op_place, pl_local, pl_proj
+    n = 0
+    for (i, j, st) in b.aggregates(r'raftlog::RaftLogManagerRequest$', 'SplitOff'):
+        op = st['rv']['ops'][0]
+        pl = op_place(op)
+        if pl is None:
+            continue
+        consts = []
+
+        def walk(l, depth=0):
+            if depth > 4:
+                return
+            for kind, bb, jj, node in b.defs.get(l, []):
+                if kind != 'stmt':
+                    continue
+                rv = node['rv']
+                if rv['k'] == 'use' and 'c' in rv['op']:
+                    consts.append((bb, rv['op']['c'].get('v')))
+                elif rv['k'] == 'use':
+                    p2 = op_place(rv['op'])
+                    if p2 is not None and not pl_proj(p2):
+                        walk(pl_local(p2), depth + 1)
+        walk(pl_local(pl))
+        for (bb, v) in consts:
+            n += 1
+            none_edge = any(a[0] in ('variant',) and a[2] == 'None' for a in cfg.guard_atoms(b, bb)) or \
+                any(a[0] == 'notvariant' for a in cfg.guard_atoms(b, bb)) or True
+            big = False
+            try:
+                big = int(v) >= 2 ** 64 - 1
+            except Exception:
+                big = False
+            ck.require(big, 'R08g', 'finalize:None-wipes-the-log', b.where(bb),
+                       'with delete_through == None the log manager is asked to split off at %s: nothing (or not everything) is removed, the '
+                       'follower\'s old log stays the current one and the snapshot pointer is filed in front of it - last log index 5 instead of 500, '
+                       'append 501 refused' % v, 'u64::MAX')
+    ck.floor('R08g', 'constant split-off bounds in finalize_snapshot_installation', n, 1)
+    so = ck.body(LM + 'split_off', 'R08g')
+    if so:
+        w = [(bb, st) for x in util.region(fb, so) for (o, f, bb, st) in x.field_writes() if f == 'current_log_actor']
+        ck.require(len(w) >= 1, 'R08g', 'split_off:forgets-removed-current-log', so.where(),
+                   'split_off can remove the file of the current log actor but keeps current_log_actor: the next write goes to a closed actor '
+                   'instead of starting a new log file')
+
+
+def r08h(ck, fb, R='R08h'):
+    ck.rule(R, 'a restart restores the catalogued snapshot no matter what the last-applied index says: finalize_snapshot_installation does not '
+               'record a last-applied index (it stays 0 until a later entry is applied), so StateApplyManager::load_snapshot must decide whether '
+               'there is a snapshot to load from the snapshot catalogue / manager only and never from last_applied_log; a node that was caught up '
+               'by an install and restarts before the next entry would otherwise come back with an empty state machine')
+    b = ck.body(SA + 'load_snapshot', R)
+    if not b:
+        return
+    reads = util.read_fields(b)
+    ck.require('last_applied_log' not in reads, R, 'load_snapshot:independent-of-last-applied', b.where(),
+               'load_snapshot reads last_applied_log to decide whether a snapshot has to be loaded: after a snapshot install last_applied_log is still 0, '
+               'so the restore is skipped on the next start and every later entry is applied on top of nothing')
+    fin = fb.main(FS + 'finalize_snapshot_installation') if fb.has(FS + 'finalize_snapshot_installation') else None
+    if fin is not None:
+        sv = util.sends(fin, r'RaftIndexRequest$', 'SaveLastAppliedLog')
+        ck.info(R, 'finalize_snapshot_installation %s a last-applied index' % ('records' if sv else 'does not record'))
+    ld = [x for x in fb.tree(SA + 'load_snapshot')[1:] if x.calls(re.escape(SA + 'do_load_snapshot') + '$')]
+    ck.require(len(ld) >= 1, R, 'load_snapshot:loads', b.where(), 'load_snapshot no longer loads the catalogued snapshot')
